@@ -30,6 +30,9 @@ def instances(tier, arr_ob="O2"):
         out.append(Inst(ob=arr_ob, name="arr_twice_n%d_l%d" % (n, l), harness="c16_arr.c", defs={"VK_N": n, "VK_L": l}, srcs=srcs, unwind=max(2 * n + 4, 12), unwind_pat=LIFE_UNW,
                         nb=n * l, ni=1, gi_args=["--replace-calls", "detect_alphabet:vk_detect_alphabet"], funcs=["kalign_arr_to_msa", "detect_aligned", "set_sip_nsip"],
                         bound="%d sequences of %d arbitrary 7-bit bytes, two independent runs" % (n, l), desc="array entry point is a function of its arguments (self-composition over nondet heap)", cost=20 * n, **common))
+    # merging the records of a second input into an existing object, then releasing both: nothing remains (C04's instances)
+    from vk.props import C04
+    out += [dataclasses.replace(i, ob="O3") for i in C04.instances(tier) if i.name.startswith(("merge_", "kalign_run_orch"))]
     # O1: --nondet-static twins of unit harnesses (a cache / static scratch buffer added to these units would be visible)
     from vk.props import C09, C11, C10
     twins = [i for i in C09.instances("quick") if i.name in ("param_dna_t0", "param_prot_t3")]
